@@ -55,6 +55,11 @@ def cases(tier, seed):
     # one options object re-used for two solves, edited in between
     for (m, dens, sm), prior in itertools.product(meshes[:2] if quick else meshes[:6], ("same_options_fixed_first", "same_options_larger_dt_max_first")):
         out.append(dict(dev=m, dens=dens, smooth=sm, gamma=10.0, u=5.79, adaptive=True, dt_max=1e-2, screening=False, prior=prior))
+    # the quiet run continues a quiet run that was allowed ten times longer steps (and ended with them)
+    for (m, dens, sm), ad in itertools.product(meshes[:3] if quick else meshes[:6], (True, False)):
+        out.append(dict(dev=m, dens=dens, smooth=sm, gamma=10.0, u=5.79, adaptive=ad, dt_max=1e-2, screening=False, prior="seeded_from_longer_steps"))
+    for (m, dens, sm) in meshes[:2] if quick else meshes[:6]:
+        out.append(dict(dev=m, dens=dens, smooth=sm, gamma=0.0, u=1.0, adaptive=True, dt_max=1e-2, screening=False, prior="seeded_from_longer_steps"))
     # ... and the quiet run itself is a screening run (the induced potential must stay identically zero whatever ran before)
     for (m, dens, sm), prior in itertools.product(meshes[:2] if quick else meshes[:6], ("screened_driven_solve", "quiet_twice")):
         out.append(dict(dev=m, dens=dens, smooth=sm, gamma=10.0, u=5.79, adaptive=True, dt_max=1e-2, screening=True, prior=prior))
@@ -118,8 +123,14 @@ def run_case(case):
         tdgl.solve(dev, opts)
         for f, v in want.items():
             setattr(opts, f, v)
+    skw = {}
+    if prior == "seeded_from_longer_steps":
+        first = tdgl.solve(dev, tdgl.SolverOptions(solve_time=3.0, dt_init=1e-3, dt_max=(10 * dtm if case["gamma"] > 1 else 2 * dtm), adaptive=True, adaptive_window=window,
+                                                   output_file="first.h5", terminal_psi=None, progress_interval=10**9))
+        res.count("seed_last_dt_over_dt_max", int(float(first.tdgl_data.state["dt"]) > dtm))
+        skw["seed_solution"] = first
     try:
-        tdgl.solve(dev, opts)
+        tdgl.solve(dev, opts, **skw)
     except RuntimeError as exc:
         if "exactly singular" in str(exc):
             # the pure-Neumann mu Laplacian is singular by construction; SuperLU happens to flag it for
@@ -151,6 +162,10 @@ def run_case(case):
             "not-stationary", explicit_euler_unstable=unstable, small_gamma=bool(case["gamma"] <= 1.0), **({"after": prior} if prior else {}),
             detail={"case": case, "S": S, "lambda_max": lam, "worst": worst, "largest": which, "raised": raised},
         )
+    # every step respects the ceiling of *this* run (fixed-step runs: dt_init = dt_max)
+    alld = np.concatenate([np.atleast_1d(fr["records"]["dt"]).astype(float) for fr in frames[1:]]) if len(frames) > 1 else np.array([])
+    if alld.size and float(alld.max()) > dtm * (1 + 1e-12):
+        res.violate("dt-above-dt-max", **({"after": prior} if prior else {}), detail={"case": case, "max_dt": float(alld.max()), "dt_max": dtm, "n_above": int((alld > dtm * (1 + 1e-12)).sum())})
     # adaptive: dt grows to dt_max and stays
     if ad and not raised:
         allc = []
